@@ -54,26 +54,24 @@ def roundOrd (num den : Nat) : Nat :=
 /-- `roundNearestEven`: the bit pattern of the correctly rounded double of `± num / den`;
     `none` = beyond the largest finite double (ParseFloat reports a range error, `Read` fails) -/
 def roundNearestEven (neg : Bool) (num den : Nat) : Option Nat :=
-  let n := roundOrd num den
-  if n < infOrd then some (mkBits neg n) else none
+  if roundOrd num den < infOrd then some (mkBits neg (roundOrd num den)) else none
 
 /-- sign, digits and scale of a text of the float grammar: value = ± mag / 10^scale.
     (strconv.readFloat: optional '-', digits before and after at most one '.') -/
-def floatParts (b : Bytes) : Bool × Nat × Nat :=
-  let neg := b.head? == some cMinus
-  let body := if neg then b.drop 1 else b
-  let ip := body.takeWhile (· ≠ cDot)
-  let fp := (body.dropWhile (· ≠ cDot)).drop 1
-  (neg, digitsVal (ip ++ fp), fp.length)
+def textNeg (b : Bytes) : Bool := b.head? == some cMinus
+def textBody (b : Bytes) : Bytes := if textNeg b then b.drop 1 else b
+def textMag (b : Bytes) : Nat :=
+  digitsVal ((textBody b).takeWhile (· ≠ cDot) ++ ((textBody b).dropWhile (· ≠ cDot)).drop 1)
+def textScale (b : Bytes) : Nat := (((textBody b).dropWhile (· ≠ cDot)).drop 1).length
 
 /-- `FIXFloat.Read` followed by `math.Float64bits`: "-0" is read as -0.0 (sign bit set), underflow gives ±0 without
     an error, overflow is ParseFloat's range error -/
 def readFloat (b : Bytes) : Res Nat :=
-  if !acceptFloat b then .err "invalid syntax" else
-  let (neg, mag, scale) := floatParts b
-  match roundNearestEven neg mag (10 ^ scale) with
-  | some bits => .ok bits
-  | none => .err "value out of range"
+  if acceptFloat b then
+    match roundNearestEven (textNeg b) (textMag b) (10 ^ textScale b) with
+    | some bits => .ok bits
+    | none => .err "value out of range"
+  else .err "invalid syntax"
 
 /-! ### Write: shortest digits that read back, closest to the value, printed positionally ('f', -1) -/
 
